@@ -114,6 +114,9 @@ def world_case(chk, batch, world, variant, year):
         parses0 = impl.init_parses(p.dir)
         picked = impl.init_pick(p.dir)["ok"]
         case["picked"] = picked
+        if picked is None or parses0 is None or "err" in impl.init_text(p.dir):
+            return case, "bumpver cannot even determine / read its configuration file in this directory (pick %r, text %r, parses %r)" % (
+                impl.init_pick(p.dir), impl.init_text(p.dir), parses0)
         # 1. --dry
         ans, before, after, out = real_init(p, dry=True)
         batch.add({"op": "init", "fs": fs_op(fs0), "dry": True, "parses": parses0, "year": year}, ans)
